@@ -7,6 +7,8 @@ REPO = os.environ.get('VERIF_REPO', '/repo')
 BUILD = os.environ.get('VERIF_BUILD', os.path.join(VERIF, 'build'))
 JOBS = int(os.environ.get('VERIF_JOBS', '16'))
 SIM = os.path.join(VERIF, 'sim')
+REPLAYS = os.environ.get('VERIF_REPLAYS', os.path.join(VERIF, 'replays'))
+EVIDENCE = os.environ.get('VERIF_EVIDENCE', os.path.join(VERIF, 'evidence'))
 CC, CXX = 'clang', 'clang++'
 TRAPS = ['malloc', 'free', 'realloc', 'calloc', 'strdup', 'aligned_alloc', 'posix_memalign']
 
@@ -190,7 +192,7 @@ PROPS = {
                 rule='one evaluation = one seeded construction history (W1) whose root handles are serialised and round-tripped; non-trivial = at least one root with a container or chunked string was compared byte-for-byte with the reference encoder and re-loaded; distinct = distinct plan digests'),
     'C04': dict(level='exploration', phases=[('asan', None, 60000, 600000)],
                 rule='one evaluation = one seeded API history (W1) checked against the shadow ownership graph after every step; non-trivial = the history shared at least one item between two owners and released at least one item; distinct = distinct plan digests'),
-    'C05': dict(level='fault_enumeration', phases=[('asan', None, 30000, 300000)],
+    'C05': dict(level='fault_enumeration', phases=[('asan', None, 30000, 300000), ('asan', 3, 15000, 100000)],
                 rule='one evaluation = one CBOR sequence delivered over a fragmenting, closing connection to a cbor_load receiver (every retry checked), or one load scenario swept over every refused allocation k; non-trivial = at least one failing cbor_load call was observed and checked (NOTENOUGHDATA, MEMERROR, or a hard error); distinct = distinct plan digests'),
     'C06': dict(level='fault_enumeration', phases=[('asan', None, 12000, 120000)],
                 rule='one evaluation = one scenario (state built by a W1 prefix, one target operation) re-run once per refused allocation index k and once per fail-stop index k; non-trivial = the fault-free run made N>=1 requests and at least one injected refusal fired; distinct = distinct plan digests'),
@@ -204,7 +206,7 @@ PROPS = {
                 rule='one evaluation = one container operation history compared step by step with the list model; non-trivial = at least one refused operation (capacity or index) and one accepted insertion occurred; distinct = distinct plan digests'),
     'C13': dict(level='exploration', phases=[('asan', None, 50000, 500000)],
                 rule='one evaluation = one W1 history or W3 stream run under a PRNG-chosen allocator configuration (direct / tagging / arena; realloc moving or not; faults on or off) with libc allocator entry points of the library objects trapped at link time; non-trivial = the library made >= 1 request through the installed allocator and released >= 1 block; distinct = distinct plan digests'),
-    'C14': dict(level='exploration', phases=[('asan', None, 40000, 400000)],
+    'C14': dict(level='exploration', phases=[('asan', None, 60000, 500000)],
                 rule='one evaluation = one CBOR sequence (items + tail) delivered in fragments to a cbor_load sequence receiver that retries on NOTENOUGHDATA and scribbles consumed bytes; non-trivial = >= 2 items were received and at least one item was decoded with a non-empty suffix behind it; distinct = distinct plan digests'),
     'C17': dict(level='exploration', phases=[('plainO2', None, 2500, 30000), ('tsan', None, 2500, 30000)],
                 rule='one evaluation = one multi-task plan (2-16 real threads, each with its own workload) first run solo per task, then under the seeded scheduler with a choice at every allocator call, streaming callback and describe write; non-trivial = at least one pre-emption happened inside a library call; distinct = distinct schedule hashes'),
@@ -259,6 +261,8 @@ def classify_crash(prop, rc, err, why=None):
     for fn, loc in frames:
         if '/src/cbor' in loc or loc.startswith(os.path.join(REPO, 'src')):
             libfn = fn; break
+    if m and (m.group(1) in ('allocator', 'out-of-memory', 'allocation-size-too-big', 'requested') or 'allocator is out of memory' in err):
+        return (None, 'sanitizer ran out of memory (a resource limit of the harness, not a property violation): ' + first_lines(err, 'ERROR: AddressSanitizer', 3), False)
     if m:
         return ('%s:asan:%s:%s' % (prop, m.group(1), libfn or '?'), first_lines(err, 'ERROR: AddressSanitizer'), in_lib or libfn is not None)
     m = re.search(r'(\S+:\d+):\d+: runtime error: (.*)', err)
@@ -464,37 +468,65 @@ def run_property(prop, tier, seed):
                             if cls is None or not in_lib:
                                 raise SystemExit(harness_fault('worker died outside library code at run %d: %s' % (idx, detail)))
                             plan = gen_plan(exe, prop, seed, idx, tier)
-                            cands.append(dict(cls=cls, detail=detail, plan=plan, exe=exe, kind='crash'))
+                            cands.append(dict(cls=cls, detail=detail, plan=plan, exe=exe, kind='crash', ctx=dict(a=a, idx=idx, tier=tier, seed=seed)))
                             total['runs'] += idx - a + 1; ph_runs += idx - a + 1
                             if idx + 1 < b and crashes < 12 and len(cands) < 40:
                                 futs[ex.submit(run_chunk, exe, prop, seed, idx + 1, b, tier, tmpdir, flavour + str(L))] = (idx + 1, b)
                         break
             phase_info.append(dict(flavour=flavour, L=info.get('max_stack'), growth=info.get('growth'), runs=ph_runs, wall_s=round(time.time() - t_ph, 2)))
         # ---------------------------------------------------------------- violations: gate, shrink, replay, known-findings
-        reported, known_lines, fault = [], [], None
-        seen_cls = {}
+        reported, known_lines, fault, unconfirmed = [], [], None, []
+        groups = {}
         for c in cands:
-            seen_cls.setdefault(c['cls'], c)
-        for cls, c in list(seen_cls.items())[:6]:
+            groups.setdefault(c['cls'], []).append(c)
+        for cls, group in list(groups.items())[:6]:
+            confirmed = None
+            for c in group[:3]:
+                exe = c['exe']
+                r1 = replay_plan(exe, c['plan'], tmpdir); r2 = replay_plan(exe, c['plan'], tmpdir)
+                if r1['cls'] == cls and r2['cls'] == cls and r1.get('digest') == r2.get('digest'):
+                    confirmed = ('plan', c, r1); break
+            if not confirmed:
+                # sanitizer reports can depend on what the process did before the run (TSan keeps a bounded, pseudo-randomly evicted
+                # access history): replay the run inside the same process context - the chunk it was found in - twice
+                for c in group[:2]:
+                    if c['kind'] != 'crash': continue
+                    x = c['ctx']; got = []
+                    for _ in range(2):
+                        res = run_chunk(c['exe'], prop, x['seed'], x['a'], x['idx'] + 1, x['tier'], tmpdir, 'ctx')
+                        v, d, infl = parse_worker(res)
+                        k, det, _in = classify_crash(prop, res['rc'], res['err'], infl[1] if infl else None)
+                        got.append((infl[0] if infl else None, k))
+                    if got[0] == got[1] == (x['idx'], cls):
+                        confirmed = ('context', c, dict(cls=cls, detail=c['detail'], in_lib=True)); break
+            if not confirmed:
+                unconfirmed.append('%s (seed %s idx %s)' % (cls, seed, group[0]['plan'].get('idx'))); continue
+            kind, c, r1 = confirmed
             exe = c['exe']
-            r1 = replay_plan(exe, c['plan'], tmpdir); r2 = replay_plan(exe, c['plan'], tmpdir)
-            if r1['cls'] != cls or r2['cls'] != cls or (r1.get('digest') != r2.get('digest')):
-                fault = 'violation %s at seed %s idx %s did not reproduce identically in fresh processes (%s / %s)' % (cls, seed, c['plan'].get('idx'), r1['cls'], r2['cls'])
-                break
             if not r1.get('in_lib', True):
                 fault = 'report %s has no frame inside the library' % cls; break
-            small, tried = shrink(exe, c['plan'], cls, tmpdir, budget_s=40 if tier == 'quick' else 120)
-            r3 = replay_plan(exe, small, tmpdir)
-            if r3['cls'] != cls: small, r3 = c['plan'], r1
-            digest = hashlib.sha256(json.dumps(small, sort_keys=True).encode()).hexdigest()[:12]
-            os.makedirs(os.path.join(VERIF, 'replays'), exist_ok=True)
-            rp = os.path.join(VERIF, 'replays', '%s-%s.json' % (prop, digest))
             flavour = [f for f in FLAVOURS if ('sim-%s-' % f) in exe][0]
+            if kind == 'plan':
+                small, tried = shrink(exe, c['plan'], cls, tmpdir, budget_s=40 if tier == 'quick' else 120)
+                r3 = replay_plan(exe, small, tmpdir)
+                if r3['cls'] != cls: small, r3 = c['plan'], r1
+                doc = dict(property=prop, violation=dict(cls=cls, detail=r3['detail']), seed=seed, flavour=flavour, L=c['plan'].get('L'), shrink_replays=tried, plan=small)
+            else:
+                r3 = r1
+                doc = dict(property=prop, violation=dict(cls=cls, detail=r3['detail']), seed=seed, flavour=flavour, L=c['plan'].get('L'), shrink_replays=0, plan=c['plan'],
+                           context=dict(c['ctx'], note='the report depends on sanitizer state built up by the preceding runs of the same worker; replay re-executes runs a..idx in one process'))
+            digest = hashlib.sha256(json.dumps(doc['plan'], sort_keys=True).encode()).hexdigest()[:12]
+            os.makedirs(REPLAYS, exist_ok=True)
+            rp = os.path.join(REPLAYS, '%s-%s.json' % (prop, digest))
             with open(rp, 'w') as f:
-                json.dump(dict(property=prop, violation=dict(cls=cls, detail=r3['detail']), seed=seed, flavour=flavour, L=c['plan'].get('L'), shrink_replays=tried, plan=small), f, indent=1)
+                json.dump(doc, f, indent=1)
             kf = match_known(prop, cls, r3['detail'])
             if kf: known_lines.append('KNOWN-FINDING: property=%s %s' % (prop, kf['what']))
             else: reported.append((cls, r3['detail'], rp))
+        if unconfirmed and not reported and not fault:
+            fault = 'violation(s) that did not reproduce in fresh processes: ' + '; '.join(unconfirmed)
+        elif unconfirmed:
+            log('note: not reproduced in fresh processes (not reported): ' + '; '.join(unconfirmed))
         wall = time.time() - t_start
         write_evidence(prop, tier, seed, cfg, total, phase_info, wall, len(reported), known_lines, crashes)
         if fault:
@@ -528,8 +560,8 @@ def write_evidence(prop, tier, seed, cfg, total, phase_info, wall, nviol, known_
         known_findings=known_lines, exhaustive=False)
     ev = dict(property_id=prop, tier=tier, seed=seed, level=cfg['level'], coverage=cov,
               assumptions=ASSUME_ALLOC + cfg.get('assumptions', []), wall_s=round(wall, 2), violations=nviol)
-    os.makedirs(os.path.join(VERIF, 'evidence'), exist_ok=True)
-    with open(os.path.join(VERIF, 'evidence', prop + '.json'), 'w') as f:
+    os.makedirs(EVIDENCE, exist_ok=True)
+    with open(os.path.join(EVIDENCE, prop + '.json'), 'w') as f:
         json.dump(ev, f, indent=1)
 
 # --------------------------------------------------------------------------- other commands
@@ -542,7 +574,16 @@ def cmd_replay(path):
     exe = build(flavour, L)
     tmpdir = os.path.join(BUILD, 'tmp-replay-%d' % os.getpid()); os.makedirs(tmpdir, exist_ok=True)
     try:
-        r = replay_plan(exe, plan, tmpdir)
+        if 'context' in doc:
+            x = doc['context']
+            res = run_chunk(exe, prop, x['seed'], x['a'], x['idx'] + 1, x['tier'], tmpdir, 'ctx')
+            v, d, infl = parse_worker(res)
+            if d is not None and not v: r = dict(ok=True, cls=None, detail='', digest=d.get('digest'))
+            else:
+                k, det, _in = classify_crash(prop, res['rc'], res['err'], infl[1] if infl else None)
+                r = dict(ok=False, cls=k, detail=det, digest=None)
+        else:
+            r = replay_plan(exe, plan, tmpdir)
     finally:
         shutil.rmtree(tmpdir, ignore_errors=True)
     if r['ok']:
